@@ -92,13 +92,13 @@ def rand_op(rng, g, D, corr, nimg=1):
             return {"op": "resize", "size": [rng.randint(2, 7) for _ in range(D)], "ac": ac}
         return {"op": k, "levels": 1, "min_size": 0, "ac": ac, "sigma": rng.choice([0, 0, None]),
                 "dims": None if rng.random() < .7 else sorted(rng.sample(range(D), rng.randint(1, D)))}
-    if k == "down_neg":   # downsample(levels < 0) is upsampling: data redirected to core.image.upsample, grid to Grid._resize
-        if frac or max(n) > 6:
+    if k == "down_neg":   # downsample(levels < 0) is upsampling: redirected to ImageBatch.upsample
+        if max(n) > 6:
             return {"op": "resize", "size": [rng.randint(2, 7) for _ in range(D)], "ac": ac}
         return {"op": "down", "levels": -1, "min_size": 0, "ac": ac, "sigma": rng.choice([0, None]),
                 "dims": None if rng.random() < .6 else sorted(rng.sample(range(D), rng.randint(1, D)))}
     if k == "up":
-        if frac or max(n) > 6:
+        if max(n) > 6:
             return {"op": "resize", "size": [rng.randint(2, 7) for _ in range(D)], "ac": ac}
         return {"op": k, "levels": 1, "ac": ac, "dims": None if rng.random() < .6 else sorted(rng.sample(range(D), rng.randint(1, D)))}
     if k == "pyr":
@@ -151,6 +151,10 @@ def rand_op(rng, g, D, corr, nimg=1):
         st = [rng.randint(-1, max(n[i] - 3, 0)) for i in range(D)]
         return {"op": k, "start": st, "size": [rng.randint(2, max(n[i] - st[i], 2) + 1) for i in range(D)], "value": rng.choice([0, 2.5])}
     if k == "pool":
+        if rng.random() < .4:   # tuple kernel_size in grid order (X, Y[, Z]), different windows per axis
+            ks = [rng.choice([1, 2, 3]) for _ in range(D)]
+            ks = [kk if n[i] // kk >= 2 else 1 for i, kk in enumerate(ks)]
+            return {"op": k, "ks": ks}
         kk = rng.choice([1, 2, 2, 3])
         if min(n) // kk < 2:
             kk = 1
@@ -435,6 +439,55 @@ def oracle(p):
                     except Exception as e:  # noqa
                         fail(f"C04:ImageBatch.{meth}:negative-levels:raises:{type(e).__name__}", f"raises {type(e).__name__}: {str(e)[:140]}",
                              grid_flag=flag, ac=ac, D=D)
+    # pyramid with a given finest-level spacing: level 0 is the ramp on its grid inside the hull of the original samples
+    for D in (2, 3):
+        for flag in (True, False):
+            for sp in (0.5, 1.5):
+                try:
+                    gd = dict(size=[8, 6, 5][:D], spacing=[1.0, 1.0, 1.0][:D], center=[1.0, -2.0, 0.5][:D], direction=rand_dir(rng, D), align_corners=flag)
+                    g = mk(gd)
+                    A = [2.0, 3.0, -1.0][:D]
+                    w = g.index_to_world(g.coords(normalize=False).double(), decimals=None).double()
+                    dat = ((w * torch.tensor(A, dtype=torch.float64)).sum(-1) + 1.0).unsqueeze(0).unsqueeze(0)
+                    b = ImageBatch(dat, g)
+                    lv = b.pyramid(2, spacing=sp, sigma=0)[0]
+                    g_new = lv.grid(0)
+                    src = g.world_to_index(g_new.index_to_world(g_new.coords(normalize=False).double(), decimals=None), decimals=None).double()
+                    n_old = torch.tensor([float(v) for v in g.size()], dtype=torch.float64)
+                    ind = ((src >= -1e-6) & (src <= n_old - 1 + 1e-6)).all(-1).double()
+                    m2 = ImageBatch(ind.unsqueeze(0).unsqueeze(0), lv.grids())
+                    counts["probes"] += 1
+                    check_stage(fail, "ImageBatch.pyramid:spacing", lv, m2, A, 1.0,
+                                dict(grids=[gd], ops=[{"op": "pyr", "levels": 2, "spacing": sp, "level": 0}], A=A, b=1.0), 1e-4 * (float(dat.abs().max()) + 1))
+                except Exception as e:  # noqa
+                    fail(f"C04:ImageBatch.pyramid:spacing:raises:{type(e).__name__}", f"raises {type(e).__name__}: {str(e)[:140]}", flag=flag, spacing=sp, D=D)
+    # flow fields whose vectors are expressed in grid / cube units: after an operation that changes the grid the SAME world
+    # displacement must be described (a constant world displacement stays that constant)
+    for D in (2, 3):
+        for axn in ("GRID", "CUBE", "CUBE_CORNERS", "WORLD"):
+            gd = dict(size=[8, 6, 4][:D], spacing=[1.0, 2.0, 1.5][:D], center=[1.0, -2.0, 0.5][:D], direction=rand_dir(rng, D), align_corners=True)
+            g = mk(gd)
+            vec = torch.tensor([1.0, 0.5, -0.75][:D], dtype=torch.float64)
+            vw = vec.reshape((1, D) + (1,) * D).expand((1, D) + tuple(g.shape)).clone()
+            f0 = FlowFields(vw, g, Axes.WORLD).axes(getattr(Axes, axn))
+            ops = [("crop", lambda x: x.crop(num=[2, 2] + [0] * (2 * D - 2))), ("pad", lambda x: x.pad(num=[2, 0] + [0] * (2 * D - 2))),
+                   ("resize", lambda x: x.resize([4, 3, 2][:D])), ("downsample", lambda x: x.downsample(1, sigma=0)),
+                   ("avg_pool", lambda x: x.avg_pool(2)), ("narrow", lambda x: x.narrow(x.ndim - 1, 1, 4)),
+                   ("center_crop", lambda x: x.center_crop([4, 4, 2][:D]))]
+            for oname, fn in ops:
+                try:
+                    r_ = fn(f0)
+                    counts["probes"] += 1
+                    back = r_.axes(Axes.WORLD).tensor().double()
+                    # the central sample (away from padded / extrapolated borders)
+                    sl = (0, slice(None)) + tuple(slice(n_ // 2, n_ // 2 + 1) for n_ in back.shape[2:])
+                    inner = back[sl].reshape(D, -1)
+                    if not bool(((inner - vec.unsqueeze(1)).abs() <= 1e-4).all()):
+                        fail(f"C04:FlowFields:vector-rescaling:{axn}",
+                             f"a constant world displacement {vec.tolist()} given w.r.t. {axn} axes describes {[round(float(v), 4) for v in inner[:, 0]]} after {oname} "
+                             "(vectors are not converted to the units of the new grid)", grids=[gd], op=oname)
+                except Exception as e:  # noqa
+                    fail(f"C04:FlowFields.{oname}:{axn}:raises:{type(e).__name__}", f"raises {type(e).__name__}: {str(e)[:140]}", grids=[gd])
     # sampling a batch whose images lie on DIFFERENT grids on one shared target grid (also a target equal to the grid of
     # image 0): every entry must be that image sampled alone on the target
     for it in range(max(6, p["n"] // 10)):
